@@ -5,7 +5,7 @@ from .. import adapters, core, operators, prog
 from ..draw import composite
 
 RULE = ("conforming program (DESIGN §4.1) x edit operator of the violation catalogue (DESIGN §4.2) x applicable site "
-        "(quick: one site per operator per program, thorough: up to 3 sites per (operator, site class) per program); oracle: the "
+        "(quick: one site per operator per program, thorough: one site per (operator, site class) per program); oracle: the "
         "mutated file is status Error and its diagnostics contain (Error, expected code, report line); every 25th variant also through "
         "the CLI: '<name>: Error!' and exit status != 0; precondition: the unmutated program is accepted; non-trivial = every mutated "
         "file of an accepted program, distinct by SHA-1 of the mutated text; coverage lists hits per (operator, site class)")
@@ -126,7 +126,7 @@ def run(pid, tier, seed):
     if tier == "quick":
         shards, n, per_class = 8, 15, 0
     else:
-        shards, n, per_class = 16, 300, 3
+        shards, n, per_class = 16, 120, 1
     camp = core.Campaign()
     for name, rc in core.regress_cases(pid):
         for k, what in replay(pid, rc["case"]):
@@ -138,7 +138,7 @@ def run(pid, tier, seed):
     camp.extra["distinct_operator_site_classes_hit"] = sum(1 for k in camp.counters if k.startswith("hit:"))
     if tier == "thorough" and never:
         raise core.HarnessError("operators without any site in a thorough run (generator bug): %s" % never)
-    return core.finish(pid, tier, seed, camp, RULE, t0, assumptions=[
+    return core.finish(pid, tier, seed, camp, RULE, t0, replay_fn=replay, assumptions=[
         "site predicates encode where each rule applies (fixed from the Norm sentence and the rule's documentation, DESIGN §4.2)",
         "only rules the tool enforces are in the catalogue; one violation per file",
     ])
